@@ -75,16 +75,15 @@ package turn
 
 // ---- C17: time-windowed shared-secret credentials (lt_cred.go, server_config.go) -------------------------------
 
-//@ ghost func authKeyOf(username string, realm string, password string) int
+//@ spec func authKeyOf(username string, realm string, password string) int = macOf(0, strcat(strcat(strcat(strcat(username, ":"), realm), ":"), password))
 //@ spec func ltPassword(secret string, username string) int = b64(macOf(secret, username))
 //@ spec func unixOf(t int) int = floordiv(t, 1000000000)
 
 // GenerateAuthKey hashes "username:realm:password" with MD5 through fmt.Fprint into a hash.Hash; the contract names the
 // result (a function of the three texts only) and is assumed, not verified (listed under assumptions).
 //@ func GenerateAuthKey
-//@   trusted
-//@   pure
-//@   ensures res != nil && len(res) == 16 && strOf(res) == authKeyOf(username, realm, password)
+//@   ensures [C03,C17:key-is-md5-of-user-realm-password] res != nil && len(res) == 16 && strOf(res) == authKeyOf(username, realm, password)
+//@   assigns hashKey, hashed, macLen
 
 //@ func longTermCredentials
 //@   ensures [C17:password-is-hmac] res1 == nil ==> res0 == ltPassword(sharedSecret, username)
